@@ -18,7 +18,7 @@ from ..ring import Poly, Rat, reset_relations
 from ..symt import InterpError, STensor, Unsupported, simplify, to_rat
 from ..tae import Interp, Obj, STObj
 from .gridsym import fresh_facts, rotation
-from .t1_grid import _guard, apply, as_h, compose, identity_h, make_interp, teq, tstr
+from .t1_grid import ScenarioUnavailable, _guard, apply, as_h, compose, identity_h, make_interp, teq, tstr
 
 
 class BatchEnv:
@@ -51,7 +51,7 @@ class BatchEnv:
                 g = self.it.method(g0, "downsample")
                 if tuple(int(x) for x in self.it.method(g, "size")) != tuple(self.size) or \
                         all(to_rat(x).equals(to_rat(y)) for x, y in zip(g.attrs["_size"].flat(), self.size)):
-                    raise AnalysisError("fractional-size scenario: downsample() of odd sizes no longer keeps a non-integral internal size")
+                    raise ScenarioUnavailable("downsample() of an odd-sized grid does not keep a non-integral internal size: no fractional-size grid can be built")
                 self.grids.append(g)
                 continue
             self.grids.append(self.it.new(self.Grid, size=self.size, spacing=STensor.from_flat(s, [D]),
@@ -283,7 +283,12 @@ def run_lockstep(ctx: Ctx) -> None:
                         return True, ""
                     _guard(ctx, "T13.interp-flag", f"{tag}:{op}:{kw}", IBm[op], f"op={op} kw={kw} {tag}", thi)
             # the same operations on images whose grids carry a non-integral internal size (a pyramid level of an odd-sized grid)
-            envf = BatchEnv(ctx, shape, N=2, C=1, ac=ac, fractional=True)
+            try:
+                envf = BatchEnv(ctx, shape, N=2, C=1, ac=ac, fractional=True)
+            except ScenarioUnavailable as e:
+                if f"T13 fractional-size scenario skipped: {e}" not in ctx.notes:
+                    ctx.notes.append(f"T13 fractional-size scenario skipped: {e}")
+                continue
             for op, desc, args, kw, fill, mode in cases:
                 def thf(op=op, args=args, kw=kw, fill=fill, mode=mode):
                     r = envf.it.method(envf.batch, op, *args, **kw)
